@@ -87,6 +87,7 @@ UNIT = VUnit(
     lemma_obligations=["lemma_render_slices_ok"],
     trusted=["<[usize]>::binary_search behaves as documented on a sorted slice (external contract)",
              "Diagnostics::visual_col is a character fold without index arithmetic (external)",
+             "the arena mark/reset around the line table in line_col_from_span is dropped (R3): it releases scratch memory and is not index arithmetic",
              "Vec<usize, &Arena> modelled by Vec<usize> (rewrite R8: `Vec::with_capacity_in(len, self.arena)` -> `Vec::with_capacity(len)`)"],
     items=[
         Fn("compute_line_starts", impl="impl Diagnostics",
@@ -111,6 +112,10 @@ UNIT = VUnit(
                     # (line, col, line_start, line_end): the line's byte range is a valid str slice that contains `start`
                     "span_ok(src@, r.2 as int, r.3 as int)", "r.2 <= start <= r.3"],
            rewrites=[Rw("R9", r"self\.compute_line_starts\(src\)", "compute_line_starts(src)"),
+                     # the scratch release of the table (1e996ac): frees memory, no index arithmetic; that the table is the only
+                     # allocation between mark and reset is read off the four lines in between (compute_line_starts is the only call)
+                     Rw("R3", r"let mark = self\.arena\.offset\(\);", "", min_matches=0),
+                     Rw("R3", r"unsafe \{ self\.arena\.reset\(mark\) \};", "", min_matches=0),
                      Rw("R9", r"line_starts\.binary_search\(&start\)\.unwrap_or_else\(\|x\| x - 1\)",
                         "match binary_search_usize(&line_starts, start) { Ok(i) => i, Err(x) => x - 1 }"),
                      Rw("R5", r"Self::visual_col\(&src\[line_start\.\.start\]\)", "visual_col(str_slice(src, line_start, start))")],
